@@ -161,8 +161,7 @@ class FormulaTransformer(m.MatcherDecoratableTransformer):
         ]
         self.global_names = set()
 
-        self.builtins = set(n for n in builtins.__dict__.keys()
-                            if n[:2] != '__' or n[-2:] != '__')
+        self.builtins = set(builtins.__dict__.keys())
 
         # state variables
         self.func_level = 0
